@@ -23,7 +23,9 @@ func init() {
 		skeletonExplain(c, "C03 (faithful delegation): per generated interface method — exactly one call through a function field, through the method's own field, arguments exactly the parameters in declaration order, '...' iff the last parameter is variadic, parameters never assigned or address-taken, `return f(...)` for methods with results and a last plain statement otherwise, nothing after the call, no go/defer/recover/function literal, no loop, the call on every completing path except the nil branch of a test of the own field; no other generated function invokes a function field.")
 		c.Run.Floor("K-CALLBACK/once", 1)
 		c.Run.Floor("K-CALLBACK/args", 2)
-		c.RunSkeletons(SkelOpts{Rules: []string{"K-CALLBACK", "K-FLOW", "K-LOCK/defer", "K-NILFUNC/guard", "G-DATA/params", "G-DATA/methods"}})
+		// the call reaches MFunc at all only if no function of the mock leaves one of its locks held (a lock
+		// leaked by an accessor blocks the next call of the method before it delegates)
+		c.RunSkeletons(SkelOpts{Rules: []string{"K-CALLBACK", "K-FLOW", "K-LOCK/defer", "K-LOCK/held-at-exit", "K-LOCK/unbalanced", "K-NILFUNC/guard", "G-DATA/params", "G-DATA/methods"}})
 		// signature and call site are rendered by separate helpers: they agree only if rendering is a pure function of the data
 		gen.CheckPure(c.Run, c.Prog, "G-PURE/render-helpers")
 	})
